@@ -356,15 +356,23 @@ func (p *simPeer) record(ch byte, m proto.Message) {
 	p.mu.Unlock()
 }
 
-// popReq takes the oldest block request the node sent to this peer.
+// popReq takes the outstanding block request for the lowest height the node sent to this peer.
 func (p *simPeer) popReq() (int64, bool) {
 	p.mu.Lock()
 	defer p.mu.Unlock()
 	if len(p.reqs) == 0 {
 		return 0, false
 	}
-	h := p.reqs[0]
-	p.reqs = p.reqs[1:]
+	// the lowest height asked for: several requesters send at the same fake instant, the order
+	// in which their requests arrive is not the simulator's
+	k := 0
+	for i, h := range p.reqs {
+		if h < p.reqs[k] {
+			k = i
+		}
+	}
+	h := p.reqs[k]
+	p.reqs = append(p.reqs[:k], p.reqs[k+1:]...)
 	return h, true
 }
 
